@@ -85,6 +85,7 @@ fn c08_worker(ctx: &WorkerCtx) -> Result<(), Fail> {
         }
         for rook in [true, false] {
             let rays = raycast(s, 0, if rook { &ROOK_DIRS } else { &BISHOP_DIRS });
+            ctx.about_to_run(&json!({"slider": if rook { "rook" } else { "bishop" }, "sq": s, "enumerate": true}));
             // all subsets of the square's own ray squares (carry-rippler)
             let mut sub = 0u64;
             loop {
@@ -200,6 +201,19 @@ fn c08_replay(v: &Value) -> Result<(), String> {
     }
     let rook = v["slider"].as_str() == Some("rook");
     let s = v["sq"].as_u64().ok_or("sq")? as u8;
+    if v.get("enumerate").is_some() {
+        // the whole ray-subset enumeration of that square (recorded before it started)
+        let rays = raycast(s, 0, if rook { &ROOK_DIRS } else { &BISHOP_DIRS });
+        let mut sub = 0u64;
+        loop {
+            c08_one(rook, s, sub)?;
+            c08_one(rook, s, sub | (1u64 << s))?;
+            sub = sub.wrapping_sub(rays) & rays;
+            if sub == 0 {
+                return Ok(());
+            }
+        }
+    }
     let occ = u64::from_str_radix(v["occ"].as_str().ok_or("occ")?.trim_start_matches("0x"), 16).map_err(|e| e.to_string())?;
     c08_one(rook, s, occ)
 }
